@@ -659,4 +659,14 @@ def radial_exact(repo: Repo) -> RuleRun:
 radial_exact.rule_id = "C13.RADIAL-EXACT"
 
 
-RULES = [rollback, probe_restore, who_writes_points, backport_rule, warning_filter, affine_kinds, link_relation, owns_geometry, angle_dimension, float_stores, backport_table, mirror_matrix, grid_quality, symmetry_exact, match_tolerance, links_accumulate, boundary, no_alias_snapshot, radial_exact]
+def rotation_exact(repo: Repo) -> RuleRun:
+    """'linked vertices keep their ... rotation ... relation to their leader' - for turns of any size. Same rule as C17.ROTATION-EXACT."""
+    from . import c17
+
+    return c17.rotation_exact(repo, PROP, "C13.ROTATION-EXACT")
+
+
+rotation_exact.rule_id = "C13.ROTATION-EXACT"
+
+
+RULES = [rollback, probe_restore, who_writes_points, backport_rule, warning_filter, affine_kinds, link_relation, owns_geometry, angle_dimension, float_stores, backport_table, mirror_matrix, grid_quality, symmetry_exact, match_tolerance, links_accumulate, boundary, no_alias_snapshot, radial_exact, rotation_exact]
